@@ -63,3 +63,30 @@ check(
     "model-based stateful property testing (snapshot-difference oracle + replica replay)",
     "DESIGN.md section 3 C07",
 )
+
+check(
+    "C15",
+    "exploration",
+    "Generated PROPPATCH set/remove, extended MKCOL/MKCALENDAR, member-write and restart histories over four collections and both metadata back ends, with values from a configuration-metacharacter grammar; after every step every settable property of every collection is read back with PROPFIND and compared with the model of acknowledged sets/removes.",
+    "Trusted: PROPFIND as the reader. Known finding K7 (multi-line values in the configparser-based .xandikos file) is recognised by an exact signature (configparser round-trip of the value) and counted.",
+    "model-based stateful property testing (read-back oracle over a metacharacter grammar)",
+    "DESIGN.md section 3 C15",
+)
+
+check(
+    "C16",
+    "exploration",
+    "Generated collection layouts and member names over the URL-significant/non-ASCII grammar under three route prefixes and both front ends; PROPFIND Depth 0/1 response sets are compared with the model and every href emitted by PROPFIND, PROPPATCH, multiget, query, sync, POST Location and href-valued properties is resolved as a client would and dereferenced as sent.",
+    "Trusted: urllib's RFC 3986 reference resolution; identification of a dereferenced resource by ETag/bytes (members) or displayname/resourcetype (collections).",
+    "property-based testing with a dereference round-trip oracle (emitted href -> GET/PROPFIND -> same resource)",
+    "DESIGN.md section 3 C16",
+)
+
+check(
+    "C17",
+    "exploration",
+    "Generated write histories with multiget requests whose href lists mix live, deleted, never-existing, over-encoded, absolute, collection, other-collection, wrong-kind, out-of-namespace (incl. prefix look-alikes), empty and malformed hrefs; per-path answers are compared with GET and re-checked with the list reversed and with each href alone.",
+    "Trusted: GET as the reference for ETag and body; href classification by decoded, normalised path against the model.",
+    "property-based testing: differential against GET + metamorphic relation (order / subset independence)",
+    "DESIGN.md section 3 C17",
+)
